@@ -155,9 +155,11 @@ def gen_steps(rng, n):
     return out
 
 
-def gen_case(rng, cid):
+def gen_case(rng, cid, focus=()):
+    """focus: regions the translator could not read on this tree (their decisions are then
+    drawn more often: baseline model + widened correspondence)"""
     c = {'id': cid}
-    nt = rng.choice([1, 1, 2, 2, 3])
+    nt = rng.choice([1, 1, 2, 2, 3]) if 'element_types' not in focus else rng.choice([2, 2, 3, 3, 4])
     types = rng.sample(list(ARITY), nt)
     counts = [rng.choice([1, 1, 2, 3]) for _ in types]
     need = max(ARITY[t] for t in types)
@@ -188,12 +190,14 @@ def gen_case(rng, cid):
                    'totaltime': tok(rng.choice([1.0, 0.5, 10.0])), 'pad': rng.choice(['', ' ', ' ', '  ']),
                    'nelem': len(eids),
                    'wc': rng.choice([1, 2, 3, 10, 10]), 'w': rng.choice([1, 2, 3, 5, 5, 5, 8])}
-    c['time_series'] = rng.random() < 0.5
+    c['time_series'] = rng.random() < (0.5 if not focus else 0.65)
     # how the flag is passed: falsy / truthy non-bool values must behave like False / True
     c['ts_arg'] = rng.choice(['True', 'True', '1', 'np.True_']) if c['time_series'] else \
         rng.choice(['False', 'False', 'None', '0', 'np.False_', 'omitted'])
     c['read_twice'] = rng.random() < 0.25      # the same query twice on the same directory
     nsteps = rng.choice([1, 2, 2, 3, 4, 6]) if c['time_series'] else rng.choice([1, 2, 3, 4])
+    if 'series_single_ok' in focus and c['time_series'] and rng.random() < 0.4:
+        nsteps = 1
     steps = gen_steps(rng, nsteps)
     used_names = set()
     has_el = rng.random() < 0.75
@@ -517,6 +521,7 @@ def check_cases(ctx, cases, tag, tie_ok, cfg):
             c['_prev'] = {k: v for k, v in case_for_replay(prev).items() if k != 'preceded_by'} if prev else None
             last_shared[c['path_key']] = c
     res = run_impl(ctx, cases)
+    ctx.log(f'{tag}: femio read {len(cases)} directories')
     oracle_bad = {}
     for c in cases:
         ctx.count('history:' + ('same-dir-rewrite' if c.get('_prev') else 'fresh-dir'))
@@ -558,6 +563,7 @@ def check_cases(ctx, cases, tag, tie_ok, cfg):
     bad = {'R': [], 'D': [], 'P': []}
     if tie_ok:
         bad = coq_check(ctx, cases, res, tag)
+        ctx.log(f'{tag}: correspondence evaluated in Coq')
     ctx.corr['cases'] = ctx.corr.get('cases', 0) + len(cases)
     ctx.corr['disagreements'] = ctx.corr.get('disagreements', 0) + len(set(bad['D']))
     ctx.corr['render_mismatch'] = ctx.corr.get('render_mismatch', 0) + len(set(bad['R']))
@@ -625,11 +631,13 @@ def main(ctx):
                         'every node is referenced by an element (remove_useless_nodes runs before the results are read)',
                         'variable names start with a letter, contain no blank and not the text TOTALTIME',
                         'values are finite (no NaN / Infinity tokens, which would start with a letter)']
-    tie_ok, cfg = True, None
+    tie_ok, cfg, degraded = True, None, {}
     try:
-        cfg, consumed = c02_cfg.translate(str(lib.REPO))
+        cfg, consumed, degraded = c02_cfg.translate(str(lib.REPO))
         ctx.sources = consumed
         lib.write_if_changed(lib.COQ / 'C02' / 'gen' / 'ResCfg.v', c02_cfg.emit(cfg))
+        for region, why in degraded.items():
+            ctx.log(f'translator could not read {region}: {why} -> baseline model + widened correspondence')
     except (c02_cfg.TranslateError, SyntaxError, OSError) as e:
         tie_ok = False
         ctx.log('translator failed closed:', e)
@@ -664,6 +672,7 @@ def main(ctx):
     # S cross-check on solver outputs
     if model_ok:
         n_real, bad_real, skipped = check_real(ctx)
+        ctx.log(f'solver outputs cross-checked: {n_real}')
         ctx.notes['solver_outputs_checked'] = n_real
         ctx.notes['solver_outputs_not_in_S_layout'] = skipped
         ctx.notes['solver_outputs_disagreeing'] = bad_real
@@ -678,11 +687,20 @@ def main(ctx):
         c['id'] = len(cases)
         cases.append(c)
     n = {'quick': 120, 'thorough': 2000}[ctx.tier]
+    focus = frozenset(degraded)
+    if focus:
+        # T -> H: the regions the translator could not read are modelled by the values of the
+        # registered tree; what they decide is now tied by a widened correspondence only
+        n = {'quick': 300, 'thorough': 3000}[ctx.tier]
     for _ in range(n):
-        c = gen_case(ctx.rng, len(cases))
-        if c['id'] % 3 == 0:
+        c = gen_case(ctx.rng, len(cases), focus)
+        if c['id'] % 3 == 0 or ('file_layer' in focus and c['id'] % 3 == 1):
             c['path_key'] = 'h'     # same-process history: one directory rewritten and re-read
         cases.append(c)
+    ctx.notes['tie'] = 'T (translator read every region) + H (correspondence)' if not focus else \
+        'H (' + '; '.join(f'translator could not read {k}: {v}' for k, v in sorted(degraded.items())) + \
+        f'; baseline model + widened correspondence, {n} cases)'
+    ctx.notes['translator_degraded'] = degraded
     step = 300
     for k in range(0, len(cases), step):
         check_cases(ctx, cases[k:k + step], f'g{k // step}', model_ok, cfg)
@@ -724,7 +742,7 @@ def replay(path):
     bad = [('raised', r['read_error'])] if 'read_error' in r else oracle(c, r)
     print('differences:', bad[:10])
     try:
-        cfg, _ = c02_cfg.translate(str(lib.REPO))
+        cfg, _, _ = c02_cfg.translate(str(lib.REPO))
         lib.write_if_changed(lib.COQ / 'C02' / 'gen' / 'ResCfg.v', c02_cfg.emit(cfg))
         ok, log, _ = lib.coq_make(['C02/Corr.vo', 'C02/gen/ResCfg.vo'])
     except c02_cfg.TranslateError as e:
